@@ -215,7 +215,26 @@ impl G {
     }
 }
 
+/// the case as given, then the same graph with its edge list in one of four other orders (the answer is a
+/// property of the graph, not of the order in which its edges are listed)
 fn check_cut(c: &CutCase, obs: &mut Obs) -> Result<(), String> {
+    check_cut_once(c, obs)?;
+    let mut e = c.edges.clone();
+    match h64(&(c.kind, &c.edges, c.s)) % 4 {
+        0 => e.sort(),
+        1 => e.sort_by(|a, b| a.0.cmp(&b.0).then(b.1.cmp(&a.1))),
+        2 => e.sort_by(|a, b| b.cmp(a)),
+        _ => e.sort_by(|a, b| a.1.cmp(&b.1).then(b.0.cmp(&a.0))),
+    }
+    if e != c.edges {
+        let alt = CutCase { edges: e, ..c.clone() };
+        check_cut_once(&alt, &mut Obs::default()).map_err(|m| format!("with the edge list in the order {:?}: {}", alt.edges, m))?;
+        obs.class("edge list also in a second order");
+    }
+    Ok(())
+}
+
+fn check_cut_once(c: &CutCase, obs: &mut Obs) -> Result<(), String> {
     ensure!(c.s != c.t, "harness: source == sink");
     let directed: BTreeSet<(usize, usize)> = c.edges.iter().cloned().collect();
     let eff: BTreeSet<(usize, usize)> = if c.kind % 2 == 1 { directed.iter().flat_map(|&(a, b)| [(a, b), (b, a)]).collect() } else { directed.clone() };
